@@ -46,6 +46,10 @@ pub struct C15Case {
     pub plan: Plan,
     pub ops: Vec<AOp>,
     pub threads: u8,
+    /// after the history: one more dispatch with a held system, and the dispatcher is dropped while
+    /// that dispatch is in flight (other lanes' dispatchers are at work in the same process)
+    #[serde(default)]
+    pub drop_in_flight: bool,
 }
 
 pub struct C15 {
@@ -134,7 +138,13 @@ impl Prop for C15 {
             ops.push(op);
         }
         let plan = gen_plan(src, &self.cfg);
-        C15Case { plan, ops, threads }
+        let drop_in_flight = src.chance(4, 16);
+        C15Case {
+            plan,
+            ops,
+            threads,
+            drop_in_flight,
+        }
     }
 
     fn check(&self, case: &C15Case, lane: usize, st: &mut Stats) -> Result<(), Fail> {
@@ -447,6 +457,31 @@ impl Prop for C15 {
         }
         if held_polled && back_to_back {
             st.nontrivial(case, || json!({"dispatches": marks.issued, "waits": marks.waits.len()}));
+        }
+        if case.drop_in_flight && !ordinary.is_empty() {
+            // abandon the dispatcher in mid-flight: nothing may go wrong here or, above all, in the
+            // dispatchers that other lanes are driving at this moment
+            let h = ordinary[0];
+            let before = expected_runs(&flat, marks.issued, 0)[h];
+            ctx.set_phase(PHASE_RUN);
+            ctx.hold[h].store(before + 1, SeqCst);
+            let r = catch_unwind(AssertUnwindSafe(|| ad.dispatch()));
+            let t0 = Instant::now();
+            while r.is_ok() && !ctx.holding[h].load(SeqCst) && t0.elapsed() < Duration::from_secs(2) {
+                std::thread::sleep(Duration::from_micros(100));
+            }
+            drop(ad);
+            ctx.hold[h].store(0, SeqCst);
+            // let the abandoned job run out before the lane's pool is used again
+            let t0 = Instant::now();
+            while ctx.active.load(SeqCst) != 0 && t0.elapsed() < Duration::from_secs(2) {
+                std::thread::sleep(Duration::from_micros(100));
+            }
+            ctx.set_phase(PHASE_BUILD);
+            st.class("dispatcher_dropped_in_flight");
+            if let Err(p) = r {
+                return Err(Fail::new(format!("dispatch panicked: {}", panic_msg(&p))));
+            }
         }
         Ok(())
     }
